@@ -296,3 +296,25 @@ Theorem C04_closeb_spec (atol rtol a b : Qc) :
   closeb atol rtol a b = true <-> (Qcabs (a - b) <= atol + rtol * Qcabs b)%Qc.
 Proof. exact (closeb_spec atol rtol a b). Qed.
 Print Assumptions C04_closeb_spec.
+
+(* FactorSet (anchor file pgmpy/factors/FactorSet.py) in the store model: the constructor / copy() / the out-of-place
+   product hold fresh copies of every member factor of both operands, so no sequence of mutations of the result's
+   member factors (in-place marginalize, values updates, field rebinding) changes the observable content of any
+   member factor of an operand.  (The harness checks the same on the real objects with `is` and by mutation.) *)
+Theorem C04_factorset_product_pure (s : store) (a b : list nat) s' new (ms : list (nat * mutation)) :
+  (forall lf, In lf (a ++ b) -> store_ok s lf) ->
+  factorset_product_store s a b = Some (s', new) ->
+  (forall p, In p ms -> In (fst p) new) ->
+  forall lf, In lf (a ++ b) ->
+    observe (fold_left (fun st p => store_mutate st (fst p) (snd p)) ms s') lf = observe s lf.
+Proof. exact (factorset_product_pure s a b s' new ms). Qed.
+Print Assumptions C04_factorset_product_pure.
+
+Example C04_factorset_product_nonvacuous :
+  let s := [OStates [0%Z; 1%Z]; OVars [0]; OCard [2]; OVals (tbuild [2] (fun _ => 1%Qc)); ODict [(0, 0)]; OFactor 1 2 3 4] in
+  store_ok s 5 /\ exists s' new, factorset_product_store s [5] [5] = Some (s', new) /\ length new = 2.
+Proof.
+  split.
+  - exists 1, 2, 3, 4, [0], [2], (tbuild [2] (fun _ => 1%Qc)), [(0, 0)]. repeat split. intros p [<-|[]]. cbn. lia.
+  - eexists. eexists. split; [vm_compute; reflexivity|reflexivity].
+Qed.
